@@ -162,7 +162,8 @@ def mk(data, job, chunks=None):
     attrs = {}
     if job.get("res") is not None:
         attrs["res"] = tuple(job["res"])
-    d = data.astype(job["dtype"])
+    from harness.workers.layouts import apply_layout
+    d = apply_layout(data.astype(job["dtype"]), job.get("layout"))
     if chunks is not None:
         d = da.from_array(d, chunks=(tuple(chunks[0]), tuple(chunks[1])))
     return xr.DataArray(d, dims=["y", "x"], coords=coords, attrs=attrs, name="r")
